@@ -181,6 +181,7 @@ impl<'a> Ctx<'a> {
                 crate::env::Env::After(_) => "fault:env-after-refused-operation",
                 crate::env::Env::Unwinding => "fault:env-while-unwinding",
                 crate::env::Env::AfterThenUnwinding(_) => "fault:env-after-refused-operation-while-unwinding",
+                crate::env::Env::AfterMany { .. } => "fault:env-after-many-repetitions-of-one-operation",
             });
             Some(e)
         } else {
@@ -296,6 +297,13 @@ fn shrink_json<S: Scenario>(v: &Value) -> Vec<Value> {
             crate::env::Env::AfterThenUnwinding(p) => {
                 out.push(serde_json::json!({"__env": crate::env::Env::After(p.clone()), "case": inner}));
                 out.push(serde_json::json!({"__env": crate::env::Env::Unwinding, "case": inner}));
+            }
+            crate::env::Env::AfterMany { op, count } => {
+                for c in [*count / 2, count.saturating_sub(1)] {
+                    if c > 0 && c < *count {
+                        out.push(serde_json::json!({"__env": crate::env::Env::AfterMany { op: *op, count: c }, "case": inner}));
+                    }
+                }
             }
             _ => {}
         }
